@@ -414,6 +414,141 @@ Proof.
   cbn [firstn]. left. reflexivity.
 Qed.
 
+(* ---- the steps that create or complete a future *)
+
+Definition frame (s tm : st) : Prop :=
+  k_pending (k tm) = k_pending (k s) /\ g_rx (g tm) = g_rx (g s) /\ g_tx (g tm) = g_tx (g s).
+
+Lemma same_table_evtab nr nt cr s x tm :
+  (forall c, fut_get tm c = fut_get x c) -> evtab nr nt cr s x -> evtab nr nt cr s tm.
+Proof. intros E H c. rewrite E. apply H. Qed.
+
+(* Connect creates its future *)
+Lemma hist_create_connect s tm n :
+  InvHist s -> k_api (k s) = Some (n, AConnDial) \/ k_api (k s) = Some (n, AConnReset) ->
+  (forall c, fut_get tm c = fut_get (fut_new s n 0 KConnect) c) ->
+  frame s tm -> k_api (k tm) = Some (n, AConnSend) ->
+  t_store (t tm) = t_store (t s) -> t_connfut (t tm) = Some n ->
+  InvHist tm.
+Proof.
+  intros (A1 & A2 & A3 & B & C & D) Hapi Etab (Fp & Frx & Ftx) Hapi' Hst Hcf.
+  assert (Hnone : fut_get s n = None /\ amap_get (k_pending (k s)) n = None).
+  { destruct Hapi as [E|E]; rewrite E in A3; destruct A3 as [P F]; split; assumption. }
+  destruct Hnone as [Hn Hp].
+  assert (EV : evtab (length (g_rx (g s))) (length (g_tx (g s))) (Some n) s tm).
+  { eapply same_table_evtab; [exact Etab|]. apply evtab_new. exact Hn. }
+  unfold InvHist. rewrite Fp, Hapi', Frx, Ftx.
+  split; [exact A1|]. split.
+  { intros c cl Hc. eapply evtab_none; [exact EV| |eapply A2; exact Hc].
+    cbn [is_cr]. destruct (N.eqb_spec c n) as [->|]; [rewrite Hp in Hc; discriminate Hc|reflexivity]. }
+  split; [split; [exact Hp|exact I]|]. split.
+  { apply (hist_B s tm (evtab_mtab _ _ _ _ _ EV)); [intros j c Hj; rewrite Hst in Hj; exact Hj|exact B]. }
+  split.
+  { intros c f Hf. pose proof (evtab_good _ _ _ _ _ _ _ EV eq_refl eq_refl C c f Hf) as G. exact G. }
+  rewrite Hcf, Etab, fut_get_new. eexists. split; reflexivity.
+Qed.
+
+(* a request creates and stores its future; the client is still connected *)
+Lemma hist_create_req s tm n r id pc' :
+  InvHist s -> k_api (k s) = Some (n, AReqPut r id) ->
+  (forall c, fut_get tm c = fut_get (store_put_f (fut_new s n id (req_kind r)) id n) c) ->
+  frame s tm -> k_api (k tm) = Some (n, pc') -> (pc' = AReqSave r id \/ pc' = AReqSend r id) ->
+  t_store (t tm) = amap_put (t_store (t s)) id n -> t_connfut (t tm) = t_connfut (t s) ->
+  InvHist tm.
+Proof.
+  intros (A1 & A2 & A3 & B & C & D) Hapi Etab (Fp & Frx & Ftx) Hapi' Hpc Hst Hcf.
+  rewrite Hapi in A3. destruct A3 as [Hp Hn]. cbn [api_fut] in Hn.
+  assert (EV : evtab (length (g_rx (g s))) (length (g_tx (g s))) (Some n) s tm).
+  { eapply same_table_evtab; [exact Etab|].
+    eapply evtab_trans_l; [apply evtab_new; exact Hn|].
+    assert (X := evtab_put (length (g_rx (g s))) (length (g_tx (g s))) (fut_new s n id (req_kind r)) id n). exact X. }
+  destruct (fut_get_new_put s n id (req_kind r)) as (fn & Hfn & Hfi & Hfk). rewrite <- Etab in Hfn.
+  unfold InvHist. rewrite Fp, Hapi', Hst, Frx, Ftx.
+  split; [exact A1|]. split.
+  { intros c cl Hc. eapply evtab_none; [exact EV| |eapply A2; exact Hc].
+    cbn [is_cr]. destruct (N.eqb_spec c n) as [->|]; [rewrite Hp in Hc; discriminate Hc|reflexivity]. }
+  split.
+  { split; [exact Hp|]. destruct Hpc as [-> | ->]; cbn [api_fut]; exists fn; split; assumption. }
+  split.
+  { intros j c Hj. rewrite aget_put in Hj. destruct (N.eqb_spec j id) as [->|].
+    - injection Hj as <-. exists fn. split; [exact Hfn|]. split; [exact Hfi|]. rewrite Hfk. destruct r; discriminate.
+    - destruct (B _ _ Hj) as (f & Hf & Hi & Hk). destruct (evtab_fwd _ _ _ _ _ _ _ EV Hf) as (f' & Hf' & M).
+      unfold meta in M. injection M as Mi Mk _ _. exists f'. split; [exact Hf'|]. split; congruence. }
+  split.
+  { intros c f Hf. exact (evtab_good _ _ _ _ _ _ _ EV eq_refl eq_refl C c f Hf). }
+  apply (hist_D s tm (evtab_mtab _ _ _ _ _ EV)); [left; exact Hcf|exact D].
+Qed.
+
+(* ... or the client has died meanwhile: the future is cancelled and taken out again *)
+Lemma hist_create_req_fail s tm n r id :
+  InvHist s -> NoDup (akeys (t_store (t s))) -> k_api (k s) = Some (n, AReqPut r id) ->
+  (forall c, fut_get tm c = fut_get (fut_cancel (store_del_f (store_put_f (fut_new s n id (req_kind r)) id n) id) n VNil) c) ->
+  frame s tm -> k_api (k tm) = None ->
+  t_store (t tm) = amap_del (amap_put (t_store (t s)) id n) id -> t_connfut (t tm) = t_connfut (t s) ->
+  InvHist tm.
+Proof.
+  intros (A1 & A2 & A3 & B & C & D) W4 Hapi Etab (Fp & Frx & Ftx) Hapi' Hst Hcf.
+  rewrite Hapi in A3. destruct A3 as [Hp Hn]. cbn [api_fut] in Hn.
+  assert (EV : evtab (length (g_rx (g s))) (length (g_tx (g s))) (Some n) s tm).
+  { eapply same_table_evtab; [exact Etab|].
+    eapply evtab_trans_l; [|apply evtab_cancel].
+    eapply evtab_wrap; [reflexivity|].
+    eapply evtab_trans_l; [apply evtab_new; exact Hn|].
+    exact (evtab_put _ _ (fut_new s n id (req_kind r)) id n). }
+  unfold InvHist. rewrite Fp, Hapi', Hst, Frx, Ftx.
+  split; [exact A1|]. split.
+  { intros c cl Hc. eapply evtab_none; [exact EV| |eapply A2; exact Hc].
+    cbn [is_cr]. destruct (N.eqb_spec c n) as [->|]; [rewrite Hp in Hc; discriminate Hc|reflexivity]. }
+  split; [exact I|]. split.
+  { intros j c Hj. rewrite aget_del in Hj by (apply anodup_put; exact W4).
+    destruct (N.eqb_spec j id) as [->|Hne]; [discriminate Hj|]. rewrite aget_put in Hj.
+    destruct (N.eqb_spec j id) as [->|_]; [contradiction|].
+    destruct (B _ _ Hj) as (f & Hf & Hi & Hk). destruct (evtab_fwd _ _ _ _ _ _ _ EV Hf) as (f' & Hf' & M).
+    unfold meta in M. injection M as Mi Mk _ _. exists f'. split; [exact Hf'|]. split; congruence. }
+  split.
+  { intros c f Hf. exact (evtab_good _ _ _ _ _ _ _ EV eq_refl eq_refl C c f Hf). }
+  apply (hist_D s tm (evtab_mtab _ _ _ _ _ EV)); [left; exact Hcf|exact D].
+Qed.
+
+(* a completion *)
+Lemma hist_complete s x tm c v :
+  InvHist s ->
+  evtab (length (g_rx (g s))) (length (g_tx (g s))) None s x ->
+  (forall c', fut_get tm c' = fut_get (fut_complete x c v) c') ->
+  frame s tm ->
+  (forall j c0, amap_get (t_store (t tm)) j = Some c0 -> amap_get (t_store (t s)) j = Some c0) ->
+  t_connfut (t tm) = t_connfut (t s) ->
+  (forall f, fut_get s c = Some f -> justified (g_rx (g s)) (g_tx (g s)) f) ->
+  (* the call that holds the mutex, afterwards *)
+  match k_api (k tm) with
+  | Some (c0, pc) => k_api (k s) = Some (c0, pc) /\ pc <> AReqFin
+  | None => True
+  end ->
+  InvHist tm.
+Proof.
+  intros (A1 & A2 & A3 & B & C & D) EV Etab (Fp & Frx & Ftx) Hst Hcf J Hapi.
+  assert (M : mtab s tm).
+  { eapply mtab_trans; [exact (evtab_mtab _ _ _ _ _ EV)|].
+    intros c' f Hf. rewrite Etab. apply complete_mtab. exact Hf. }
+  assert (Nt : ntab None s tm).
+  { intros c' _ Hn. rewrite Etab. apply complete_ntab; [reflexivity|]. eapply evtab_none; [exact EV|reflexivity|exact Hn]. }
+  assert (C' : forall c0 f, fut_get tm c0 = Some f -> good (g_rx (g tm)) (g_tx (g tm)) f).
+  { eapply hist_C_complete; eassumption. }
+  unfold InvHist. rewrite Fp.
+  split; [exact A1|]. split.
+  { intros c0 cl Hc. apply Nt; [reflexivity|]. eapply A2; exact Hc. }
+  split.
+  { destruct (k_api (k tm)) as [[c0 pc]|]; [|exact I]. destruct Hapi as [Hs Hpc]. rewrite Hs in A3.
+    destruct A3 as [P F]. split; [exact P|].
+    destruct pc; cbn [api_fut] in *; try exact I; try (apply Nt; [reflexivity|exact F]); try contradiction.
+    - destruct F as (f & Hf & Hk). destruct (M _ _ Hf) as (f' & Hf' & Mm). unfold meta in Mm. injection Mm as _ Mk _ _.
+      exists f'. split; [exact Hf'|congruence].
+    - destruct F as (f & Hf & Hk). destruct (M _ _ Hf) as (f' & Hf' & Mm). unfold meta in Mm. injection Mm as _ Mk _ _.
+      exists f'. split; [exact Hf'|congruence]. }
+  split; [exact (hist_B s tm M Hst B)|]. split; [exact C'|].
+  apply (hist_D s tm M); [left; exact Hcf|exact D].
+Qed.
+
 Lemma sub_del {A} (m : list (N * A)) k : NoDup (akeys m) ->
   forall j c, amap_get (amap_del m k) j = Some c -> amap_get m j = Some c.
 Proof. intros Hnd j c H. rewrite aget_del in H by exact Hnd. destruct (j =? k); [discriminate H|exact H]. Qed.
